@@ -106,11 +106,11 @@ class Heap:
     # ---- dicts
     def _dsorts(self, d: SDict):
         ks = z3.StringSort() if d.key == "str" else z3.IntSort()
-        vs = {"ref": z3.IntSort(), "str": z3.StringSort(), "int": z3.IntSort(), "list": z3.IntSort()}[d.val]
+        vs = {"ref": z3.IntSort(), "str": z3.StringSort(), "int": z3.IntSort(), "list": z3.IntSort()}.get(d.val, z3.IntSort())
         return ks, vs
 
     def _dmap(self, d: SDict):
-        k = f"{d.key}_{d.val}"
+        k = f"{d.key}_{d.val}".replace(":", "-")
         if k not in self.dh:
             ks, vs = self._dsorts(d)
             self.dh[k] = self.dh0[k] = z3.Const(f"DH_{k}", z3.ArraySort(z3.IntSort(), z3.ArraySort(ks, z3.BoolSort())))
@@ -709,6 +709,8 @@ class Engine:
 
     def key_term(self, path, d: SDict, k: Val):
         if d.key == "str":
+            if isinstance(k, SNone):
+                return z3.StringVal("\x00None")      # None used as a dict key next to str keys
             return self.to_str(path, k)
         if isinstance(k, SInt):
             return k.t
@@ -770,6 +772,9 @@ class Engine:
             return SInt(t)
         if d.val == "list":
             return SList(t, self.c.dict_list_elem(d))
+        if d.val.startswith("dict:"):
+            _, k2, v2 = d.val.split(":", 2)
+            return SDict(t, k2, v2)
         raise EngineError(d.val)
 
     def slice_of(self, path, base, sl: ast.Slice, e):
@@ -874,7 +879,7 @@ class Engine:
         if k == "list":
             return SList(t, parts[1] if len(parts) > 1 else "ref")
         if k == "dict":
-            return SDict(t, parts[1] if len(parts) > 1 else "str", parts[2] if len(parts) > 2 else "ref")
+            return SDict(t, parts[1] if len(parts) > 1 else "str", ":".join(parts[2:]) if len(parts) > 2 else "ref")
         if k == "opaque":
             return SOpaque(parts[1] if len(parts) > 1 else name, t)
         raise EngineError(f"field kind {kind}")
@@ -961,6 +966,14 @@ class Engine:
         if isinstance(v, SChar):
             return SInt(z3.IntVal(1))
         raise EngineError(f"len of {type(v).__name__}")
+
+    def bi_str(self, path, e):
+        v = self.ev(path, e.args[0])
+        if isinstance(v, SInt):
+            return SStr(z3.IntToStr(v.t))
+        if isinstance(v, (SStr, SConst)):
+            return SStr(self.to_str(path, v))
+        raise EngineError("str() of " + type(v).__name__)
 
     def bi_print(self, path, e):
         return SNone()
@@ -1122,6 +1135,10 @@ class Engine:
     def m_SConst_lower(self, path, s, e):
         return SConst(s.py.lower())
 
+    def m_SStr_replace(self, path, s, e):
+        a, b = self.to_str(path, self.ev(path, e.args[0])), self.to_str(path, self.ev(path, e.args[1]))
+        return SStr(self.c.replace_all(s.t, a, b))
+
     def m_SStr_startswith(self, path, s, e):
         return SBool(z3.PrefixOf(self.to_str(path, self.ev(path, e.args[0])), s.t))
 
@@ -1274,6 +1291,14 @@ class Engine:
             return self._int(v)
         if d.val == "list" and isinstance(v, SList):
             return v.id
+        if d.val.startswith("dict:") and isinstance(v, SDict):
+            _, k2, v2 = d.val.split(":", 2)
+            v.key, v.val = k2, v2
+            # re-home the freshly created empty dict in the right content map
+            ks, vs = path.heap._dsorts(v)
+            dflt = z3.StringVal("") if vs == z3.StringSort() else z3.IntVal(0)
+            path.heap.dict_set(v, z3.K(ks, z3.BoolVal(False)), z3.K(ks, dflt))
+            return v.id
         raise EngineError(f"dict of {d.val} <- {type(v).__name__}")
 
     def st_Delete(self, st, path):
@@ -1401,6 +1426,26 @@ class Engine:
         return self.loop(st, path, kind="for")
 
     def loop(self, st, path, kind):
+        if kind == "for":
+            lit = self.literal_items(path, st.iter)
+            if lit is not None:
+                # iteration over a literal tuple/list/dict display: finite, unrolled exactly (takes no loop ordinal)
+                outs = [Outcome("normal", path)]
+                for item in lit:
+                    nxt = []
+                    for o in outs:
+                        if o.kind != "normal":
+                            nxt.append(o)
+                            continue
+                        self.assign(o.path, st.target, item)
+                        for o2 in self.exec_block(st.body, o.path):
+                            if o2.kind == "continue":
+                                o2 = Outcome("normal", o2.path)
+                            if o2.kind == "break":
+                                o2 = Outcome("_done", o2.path)
+                            nxt.append(o2)
+                    outs = nxt
+                return [Outcome("normal", o.path) if o.kind == "_done" else o for o in outs]
         key = id(st)
         if key not in self.loop_ids:
             self.loop_ids[key] = self.loop_ord
@@ -1552,6 +1597,16 @@ class Engine:
                     head.heap.dv[k] = fresh(f"DV_{k}", head.heap.dv[k].sort())
         for cname in calls:
             self.c.havoc_for_call(self, head, cname)
+
+    def literal_items(self, path, it_e):
+        """items of an iteration over a display of constants: (a, b), [a, b], {k: v}.items()"""
+        if isinstance(it_e, (ast.Tuple, ast.List)) and all(isinstance(x, ast.Constant) for x in it_e.elts):
+            return [SConst(x.value) for x in it_e.elts]
+        if isinstance(it_e, ast.Call) and isinstance(it_e.func, ast.Attribute) and it_e.func.attr == "items" and isinstance(it_e.func.value, ast.Dict):
+            d = it_e.func.value
+            if all(isinstance(k, ast.Constant) and isinstance(v, ast.Constant) for k, v in zip(d.keys, d.values)):
+                return [STuple([SConst(k.value), SConst(v.value)]) for k, v in zip(d.keys, d.values)]
+        return None
 
     # ---- iteration sources
     def iter_source(self, path, it_e, ordn):
